@@ -123,7 +123,7 @@ Lemma count_get_app a l1 l2 : count_get a (l1 ++ l2) = count_get a l1 + count_ge
 Proof. unfold count_get. rewrite filter_app, app_length. lia. Qed.
 
 Lemma count_get_cons a p l : count_get a (p :: l) = (if p_get p =? a then 1 else 0) + count_get a l.
-Proof. unfold count_get. simpl. destruct (p_get p =? a); simpl; lia. Qed.
+Proof. unfold count_get. cbn [filter]. destruct (p_get p =? a); cbn [length]; lia. Qed.
 
 Lemma check_reply_count l sd g s l' a : check_reply l sd g s = Some l' -> count_get a l' <= count_get a l.
 Proof.
@@ -188,17 +188,17 @@ Proof.
     destruct (m_rserial m =? 0).
     - destruct (negb (can_send cf m false)); [intros H; inversion H; subst; auto|].
       destruct (negb (can_receive cf m false)); [intros H; inversion H; subst; auto|].
-      destruct (m_type m); try (intros H; inversion H; subst; auto).
+      destruct (m_type m); try solve [intros H; inversion H; subst; auto].
       unfold expect_reply. rewrite Hn. intros H; inversion H; subst; auto.
     - destruct (check_reply (st_pend st) c r (m_rserial m)) as [pl1|] eqn:R.
       + pose proof (check_reply_incl _ _ _ _ _ R) as Hi.
         destruct (negb (can_send cf m true)); [intros H; inversion H; subst; auto|].
         destruct (negb (can_receive cf m true)); [intros H; inversion H; subst; auto|].
-        destruct (m_type m); try (intros H; inversion H; subst; auto).
+        destruct (m_type m); try solve [intros H; inversion H; subst; auto].
         unfold expect_reply. rewrite Hn. intros H; inversion H; subst; auto.
       + destruct (negb (can_send cf m false)); [intros H; inversion H; subst; auto|].
         destruct (negb (can_receive cf m false)); [intros H; inversion H; subst; auto|].
-        destruct (m_type m); try (intros H; inversion H; subst; auto).
+        destruct (m_type m); try solve [intros H; inversion H; subst; auto].
         unfold expect_reply. rewrite Hn. intros H; inversion H; subst; auto. }
   destruct res as [e|]; [intros H; inversion H; subst; simpl; auto|].
   destruct ((0 <? m_nfds m) && negb (conn_fds st r)); intros H; inversion H; subst; simpl; auto.
@@ -251,7 +251,7 @@ Proof.
      count_get a pl' <= max_replies cf).
   { intros pl1 rq H1. destruct (negb (can_send cf m rq)); [intros H; inversion H; subst; auto|].
     destruct (negb (can_receive cf m rq)); [intros H; inversion H; subst; auto|].
-    destruct (m_type m); try (intros H; inversion H; subst; auto).
+    destruct (m_type m); try solve [intros H; inversion H; subst; auto].
     intros C. destruct (expect_reply_cases _ _ _ _ _ _ _ _ C) as [(_ & -> & _)|[(_ & -> & _)|[(_ & -> & _)|(_ & -> & _ & Hc & _)]]]; auto.
     rewrite count_get_cons. simpl. destruct (c =? a) eqn:E; [apply N.eqb_eq in E; subst; lia|apply H1]. }
   destruct (m_rserial m =? 0); [apply G; auto|].
@@ -261,14 +261,14 @@ Qed.
 
 Lemma filter_count_le a (f : pend -> bool) l : count_get a (filter f l) <= count_get a l.
 Proof.
-  induction l as [|p l IH]; simpl; [lia|]. destruct (f p); rewrite ?count_get_cons; rewrite count_get_cons; lia.
+  induction l as [|p l IH]; cbn [filter]; [lia|]. destruct (f p); rewrite !count_get_cons; lia.
 Qed.
 
 Lemma drop_pending_count a l c : count_get a (drop_pending l c) <= count_get a l.
 Proof.
-  induction l as [|p l IH]; simpl; [lia|]. rewrite count_get_cons.
+  induction l as [|p l IH]; cbn [drop_pending]; [lia|]. rewrite count_get_cons.
   destruct (p_get p =? c); [lia|].
-  destruct (p_send p) as [s|]; [destruct (s =? c)|]; rewrite count_get_cons; simpl; lia.
+  destruct (p_send p) as [s|]; [destruct (s =? c)|]; rewrite count_get_cons; cbn [p_get]; lia.
 Qed.
 
 Lemma limit_step cf st e :
@@ -289,3 +289,935 @@ Proof.
   - destruct (acquire _ c al rp dq). simpl. apply Hl.
   - destruct (release (st_names st) c n). simpl. apply Hl.
 Qed.
+
+(* ------------------------------------------------------------------ Part 3a: registry and connections *)
+Definition names_ok (st : state) : Prop :=
+  forall n q o, In (n, q) (st_names st) -> In o q -> connected st (o_conn o) = true.
+
+Lemma lookup_in names n q : lookup names n = Some q -> In (n, q) names.
+Proof.
+  induction names as [|[k q0] rest IH]; simpl; [discriminate|].
+  destruct (k =? n) eqn:E; [apply N.eqb_eq in E; subst; intros H; inversion H; auto|auto].
+Qed.
+
+Lemma set_queue_in names n q n' q' : In (n', q') (set_queue names n q) -> (n' = n /\ q' = q) \/ In (n', q') names.
+Proof.
+  induction names as [|[k q0] rest IH]; simpl.
+  - destruct q; simpl; [intros []|intros [H|[]]; inversion H; auto].
+  - destruct (k =? n) eqn:E.
+    + apply N.eqb_eq in E; subst. destruct q; simpl; [auto|intros [H|H]; [inversion H; auto|auto]].
+    + simpl. intros [H|H]; [auto|]. destruct (IH H); auto.
+Qed.
+
+Lemma names_drop_in names c n q' : In (n, q') (names_drop names c) -> exists q, In (n, q) names /\ q' = remove_owner q c.
+Proof.
+  induction names as [|[k q0] rest IH]; simpl; [intros []|].
+  destruct (remove_owner q0 c) eqn:E.
+  - intros H. destruct (IH H) as (q & ? & ?). exists q; auto.
+  - intros [H|H].
+    + inversion H; subst. exists q0; auto.
+    + destruct (IH H) as (q & ? & ?). exists q; auto.
+Qed.
+
+Definition conn_in (q : list owner) (x : N) : Prop := exists o, In o q /\ o_conn o = x.
+
+Lemma remove_owner_in q c o : In o (remove_owner q c) -> In o q /\ o_conn o <> c.
+Proof.
+  unfold remove_owner. rewrite filter_In. intros [H1 H2]. split; auto.
+  apply negb_true_iff, N.eqb_neq in H2. auto.
+Qed.
+
+Lemma set_flags_in q c al dq o : In o (set_flags q c al dq) -> o_conn o = c \/ In o q.
+Proof.
+  unfold set_flags. rewrite in_map_iff. intros (x & Hx & Hin).
+  destruct (o_conn x =? c); [subst; simpl; auto|subst; auto].
+Qed.
+
+Lemma insert_second_in q x o : In o (insert_second q x) -> o = x \/ In o q.
+Proof. destruct q; simpl; intuition. Qed.
+
+Lemma add_owner_in q c al rp dq o : In o (add_owner q c al rp dq) -> o_conn o = c \/ In o q.
+Proof.
+  unfold add_owner. destruct (in_queue q c), rp.
+  - intros H. apply insert_second_in in H. destruct H as [->|H]; [simpl; auto|]. apply remove_owner_in in H. tauto.
+  - apply set_flags_in.
+  - intros H. apply insert_second_in in H. destruct H as [->|H]; simpl; auto.
+  - rewrite in_app_iff. intros [H|[<-|[]]]; simpl; auto.
+Qed.
+
+Lemma swap_owner_in q o : In o (swap_owner q) -> In o q.
+Proof. destruct q as [|p [|s rest]]; simpl; intuition. Qed.
+
+Lemma acquire_in q c al rp dq o : In o (fst (acquire q c al rp dq)) -> o_conn o = c \/ In o q.
+Proof.
+  unfold acquire. destruct q as [|p rest]; [simpl; intros [<-|[]]; auto|].
+  destruct (o_conn p =? c); [cbn [fst]; apply set_flags_in|].
+  destruct (dq && (negb (o_allow p) || negb rp)); [cbn [fst]; intros H; apply remove_owner_in in H; tauto|].
+  destruct (negb dq && (negb rp || negb (o_allow p))); [cbn [fst]; apply add_owner_in|].
+  cbn [fst]. destruct (o_dnq p); intros H.
+  - apply remove_owner_in in H. destruct H as [H _]. apply add_owner_in in H. auto.
+  - apply swap_owner_in in H. apply add_owner_in in H. auto.
+Qed.
+
+Lemma find_conn_app cs x c : find_conn (cs ++ [x]) c = match find_conn cs c with Some y => Some y | None => if c_id x =? c then Some x else None end.
+Proof. unfold find_conn. induction cs as [|y cs IH]; simpl; [reflexivity|]. destruct (c_id y =? c); auto. Qed.
+
+Lemma find_conn_filter cs c x :
+  find_conn (filter (fun y => negb (c_id y =? c)) cs) x = if x =? c then None else find_conn cs x.
+Proof.
+  unfold find_conn. induction cs as [|y cs IH]; simpl; [destruct (x =? c); reflexivity|].
+  destruct (c_id y =? c) eqn:E; simpl.
+  - rewrite IH. destruct (x =? c) eqn:X; auto. apply N.eqb_eq in E. apply N.eqb_neq in X.
+    destruct (c_id y =? x) eqn:Y; auto. apply N.eqb_eq in Y. congruence.
+  - destruct (c_id y =? x) eqn:Y; auto. apply N.eqb_eq in Y. apply N.eqb_neq in E.
+    destruct (x =? c) eqn:X; auto. apply N.eqb_eq in X. congruence.
+Qed.
+
+Lemma resolve_connected st d r : names_ok st -> resolve st d = Some r -> connected st r = true.
+Proof.
+  intros Hn. destruct d as [c|n]; simpl.
+  - destruct (connected st c) eqn:E; intros H; inversion H; subst; auto.
+  - destruct (lookup (st_names st) n) as [[|o q]|] eqn:L; try discriminate.
+    intros H; inversion H; subst. apply lookup_in in L. apply (Hn n (o :: q) o L). left; auto.
+Qed.
+
+(* how each step moves the set of connected ids *)
+Definition conn_rel (st st' : state) (e : event) : Prop :=
+  match e with
+  | EDisconnect c => if connected st c then forall x, connected st' x = (if x =? c then false else connected st x)
+                     else forall x, connected st' x = connected st x
+  | EConnect _ => forall x, connected st x = true -> connected st' x = true
+  | _ => forall x, connected st' x = connected st x
+  end.
+
+Lemma step_conn cf st e : conn_rel st (fst (step cf st e)) e.
+Proof.
+  unfold step. destruct (negb (wf_event st e)) eqn:W.
+  - simpl. destruct e; simpl; auto. simpl in W. apply negb_true_iff in W. rewrite W. auto.
+  - apply negb_false_iff in W. destruct e as [fds|c m|c|d|c s n al rp dq|c s n]; simpl.
+    + intros x. unfold connected. simpl. rewrite find_conn_app. destruct (find_conn (st_conns st) x); auto. discriminate.
+    + intros x. destruct (dispatch cf st c m) as [st' o] eqn:D. apply dispatch_frame in D. unfold connected. simpl. destruct D as (-> & _). auto.
+    + simpl in W. rewrite W. intros x. unfold disconnect. destruct (expire_pass cf (st_now st) (drop_pending (st_pend st) c)).
+      unfold connected. simpl. rewrite find_conn_filter. destruct (x =? c); auto.
+    + intros x. unfold tick. destruct (expire_pass cf (st_now st + d) (st_pend st)). reflexivity.
+    + intros x. destruct (acquire _ c al rp dq). reflexivity.
+    + intros x. destruct (release (st_names st) c n). reflexivity.
+Qed.
+
+Lemma names_ok_step cf st e : names_ok st -> names_ok (fst (step cf st e)).
+Proof.
+  intros Hn. pose proof (step_conn cf st e) as Hc. revert Hc. unfold step.
+  destruct (negb (wf_event st e)) eqn:W; [auto|]. apply negb_false_iff in W.
+  destruct e as [fds|c m|c|d|c s n al rp dq|c s n]; simpl; intros Hc.
+  - intros n q o H1 H2. apply Hc. simpl in H1. eapply Hn; eauto.
+  - destruct (dispatch cf st c m) as [st' o] eqn:D. simpl in *. pose proof (dispatch_frame _ _ _ _ _ _ D) as (_ & _ & E & _).
+    intros n q o' H1 H2. rewrite Hc. rewrite E in H1. eapply Hn; eauto.
+  - simpl in W. rewrite W in Hc. unfold disconnect in *. destruct (expire_pass cf (st_now st) (drop_pending (st_pend st) c)) as [pl oo]. simpl in *.
+    intros n q o H1 H2. apply names_drop_in in H1. destruct H1 as (q0 & H1 & ->). apply remove_owner_in in H2. destruct H2 as [H2 H3].
+    rewrite Hc. apply N.eqb_neq in H3. rewrite H3. eapply Hn; eauto.
+  - unfold tick in *. destruct (expire_pass cf (st_now st + d) (st_pend st)) as [pl oo]. simpl in *.
+    intros n q o H1 H2. rewrite Hc. eapply Hn; eauto.
+  - simpl in W. apply andb_true_iff in W. destruct W as [W _].
+    destruct (acquire (match lookup (st_names st) n with Some q => q | None => [] end) c al rp dq) as [q' code] eqn:A. simpl in *.
+    intros n' q o H1 H2. rewrite Hc. apply set_queue_in in H1. destruct H1 as [[-> ->]|H1]; [|eapply Hn; eauto].
+    assert (H3 : In o (fst (acquire (match lookup (st_names st) n with Some q => q | None => [] end) c al rp dq))) by (rewrite A; auto).
+    apply acquire_in in H3. destruct H3 as [->|H3]; auto.
+    destruct (lookup (st_names st) n) eqn:L; [|destruct H3]. apply lookup_in in L. eapply Hn; eauto.
+  - unfold release in *. destruct (lookup (st_names st) n) as [q|] eqn:L; simpl in *.
+    + destruct (in_queue q c); simpl in *.
+      * intros n' q' o H1 H2. rewrite Hc. apply set_queue_in in H1. destruct H1 as [[-> ->]|H1]; [|eapply Hn; eauto].
+        apply remove_owner_in in H2. destruct H2 as [H2 _]. apply lookup_in in L. eapply Hn; eauto.
+      * intros n' q' o H1 H2. rewrite Hc. eapply Hn; eauto.
+    + intros n' q' o H1 H2. rewrite Hc. eapply Hn; eauto.
+Qed.
+
+(* ------------------------------------------------------------------ Part 3b: what a plain send does to the table *)
+Lemma fwd_to_single r f m x : fwd_to [(r, OFwd f m)] x = (r =? x).
+Proof. unfold fwd_to. simpl. apply orb_false_r. Qed.
+Lemma fwd_to_err c e s x : fwd_to [(c, OErr e s)] x = false.
+Proof. reflexivity. Qed.
+
+Lemma can_send_true cf m : can_send cf m true = true.
+Proof. unfold can_send. destruct (restrictive cf); auto. apply orb_true_r. Qed.
+
+Lemma can_receive_true cf m : can_receive cf m true = true.
+Proof. unfold can_receive. destruct (restrictive cf); auto. apply orb_true_r. Qed.
+
+Inductive send_case (cf : cfg) (st : state) (c : N) (m : msg) (st' : state) (o : out) : Prop :=
+| SC_refused : st_pend st' = st_pend st -> (forall x, fwd_to o x = false) -> send_case cf st c m st' o
+| SC_through r : o = [(r, OFwd c m)] -> st_pend st' = st_pend st -> (is_call m = false \/ m_noreply m = true) ->
+     (m_rserial m = 0 \/ forall p, In p (st_pend st) -> pend_match r c (m_rserial m) p = false) -> send_case cf st c m st' o
+| SC_opens r : resolve st (m_dest m) = Some r -> o = [(r, OFwd c m)] -> is_call m = true -> m_noreply m = false -> m_rserial m = 0 ->
+     st_pend st' = mkPend c (Some r) (m_serial m) (st_now st) :: st_pend st ->
+     (forall p, In p (st_pend st) -> pend_match c r (m_serial m) p = false) -> count_get c (st_pend st) < max_replies cf -> send_case cf st c m st' o
+| SC_answers r l1 p l2 : o = [(r, OFwd c m)] -> is_call m = false -> m_rserial m <> 0 -> st_pend st = l1 ++ p :: l2 ->
+     pend_match r c (m_rserial m) p = true -> st_pend st' = l1 ++ l2 -> send_case cf st c m st' o.
+
+Lemma send_cases cf st c m st' o : plain_msg m = true -> dispatch cf st c m = (st', o) -> send_case cf st c m st' o.
+Proof.
+  unfold plain_msg. rewrite andb_true_iff, N.eqb_eq. intros [Hf Hp]. unfold dispatch.
+  destruct (resolve st (m_dest m)) as [r|] eqn:Rs; [|intros H; inversion H; subst; apply SC_refused; auto].
+  rewrite Hf. simpl.
+  destruct (check_security_policy cf (st_now st) (st_pend st) c r m) as [pl res] eqn:C. revert C. unfold check_security_policy.
+  destruct (m_rserial m =? 0) eqn:R0.
+  - apply N.eqb_eq in R0.
+    destruct (negb (can_send cf m false)); [intros C H; inversion C; subst; simpl in H; inversion H; subst; apply SC_refused; auto|].
+    destruct (negb (can_receive cf m false)); [intros C H; inversion C; subst; simpl in H; inversion H; subst; apply SC_refused; auto|].
+    destruct (m_type m) eqn:Ty;
+      try solve [intros C H; inversion C; subst; simpl in H; inversion H; subst; simpl; apply (SC_through _ _ _ _ _ _ r); auto; left; unfold is_call; rewrite Ty; auto].
+    intros C. destruct (expect_reply_cases _ _ _ _ _ _ _ _ C) as [(Hn & -> & ->)|[(Hn & -> & -> & _)|[(Hn & -> & -> & _)|(Hn & -> & -> & Hc & Hno)]]];
+      intros H; inversion H; subst; simpl.
+    + apply (SC_through _ _ _ _ _ _ r); auto.
+    + apply SC_refused; auto.
+    + apply SC_refused; auto.
+    + apply (SC_opens _ _ _ _ _ _ r); auto; unfold is_call; rewrite Ty; auto.
+  - assert (Hnc : is_call m = false).
+    { destruct (is_call m); auto; simpl in Hp; congruence. }
+    apply N.eqb_neq in R0.
+    destruct (check_reply (st_pend st) c r (m_rserial m)) as [pl1|] eqn:R.
+    + destruct (check_reply_some _ _ _ _ _ R) as (l1 & p & l2 & E1 & E2 & Hm).
+      rewrite can_receive_true, can_send_true. simpl.
+      destruct (m_type m) eqn:Ty; try (unfold is_call in Hnc; rewrite Ty in Hnc; discriminate);
+        intros C H; inversion C; subst; simpl in H; inversion H; subst; simpl; apply (SC_answers _ _ _ _ _ _ r l1 p l2); auto.
+    + pose proof (proj1 (check_reply_none _ _ _ _) R) as Hno.
+      destruct (negb (can_send cf m false)); [intros C H; inversion C; subst; simpl in H; inversion H; subst; apply SC_refused; auto|].
+      destruct (negb (can_receive cf m false)); [intros C H; inversion C; subst; simpl in H; inversion H; subst; apply SC_refused; auto|].
+      destruct (m_type m) eqn:Ty; try (unfold is_call in Hnc; rewrite Ty in Hnc; discriminate);
+        intros C H; inversion C; subst; simpl in H; inversion H; subst; simpl; apply (SC_through _ _ _ _ _ _ r); auto.
+Qed.
+
+(* ------------------------------------------------------------------ Part 3c: table = ledger *)
+Lemma timed_out_0 T : timed_out T 0 = false.
+Proof. unfold timed_out. destruct T as [x|]; auto. destruct (0 <? x) eqn:A; auto. simpl. apply N.leb_gt. apply N.ltb_lt in A. exact A. Qed.
+
+Lemma expired_some cf now p b : p_send p = Some b -> expired cf now p = timed_out (reply_timeout cf) (now - p_added p).
+Proof. intros H. unfold expired, timed_out. rewrite H. reflexivity. Qed.
+
+Lemma NoDup_map_filter {A B} (f : A -> B) (g : A -> bool) l : NoDup (map f l) -> NoDup (map f (filter g l)).
+Proof.
+  induction l as [|x l IH]; simpl; auto. intros H. inversion H; subst. destruct (g x); simpl; auto.
+  constructor; auto. intros Hin. apply H2. apply in_map_iff in Hin. destruct Hin as (y & <- & Hy).
+  apply filter_In in Hy. apply in_map. tauto.
+Qed.
+
+Lemma NoDup_other l1 (p : pend) l2 q : NoDup (map pkey (l1 ++ p :: l2)) -> In q (l1 ++ l2) -> pkey q <> pkey p.
+Proof.
+  rewrite map_app. simpl. intros H Hq E. apply NoDup_remove_2 in H. apply H. rewrite <- map_app, <- E. apply in_map. auto.
+Qed.
+
+Definition stays (c : N) (p : pend) : bool :=
+  negb (p_get p =? c) && negb (match p_send p with Some s => s =? c | None => false end).
+
+Lemma disconnect_filter cf now l c :
+  (forall p, In p l -> exists b, p_send p = Some b) ->
+  (forall p, In p l -> timed_out (reply_timeout cf) (now - p_added p) = false) ->
+  filter (fun p => negb (expired cf now p)) (drop_pending l c) = filter (stays c) l.
+Proof.
+  induction l as [|p l IH]; simpl; auto. intros H1 H2.
+  assert (IH' : filter (fun p => negb (expired cf now p)) (drop_pending l c) = filter (stays c) l) by (apply IH; auto).
+  destruct (H1 p (or_introl eq_refl)) as [b Hb]. unfold stays at 1. rewrite Hb.
+  destruct (p_get p =? c); simpl; auto.
+  destruct (b =? c); simpl; auto.
+  rewrite (expired_some _ _ _ _ Hb), (H2 p (or_introl eq_refl)). simpl. rewrite IH'. reflexivity.
+Qed.
+
+Lemma disconnect_out cf now l c :
+  (forall p, In p l -> exists b, p_send p = Some b) ->
+  (forall p, In p l -> timed_out (reply_timeout cf) (now - p_added p) = false) ->
+  map noreply_of (filter (expired cf now) (drop_pending l c)) =
+  map noreply_of (filter (fun p => negb (p_get p =? c) && (match p_send p with Some s => s =? c | None => false end)) l).
+Proof.
+  induction l as [|p l IH]; simpl; auto. intros H1 H2.
+  assert (IH' : map noreply_of (filter (expired cf now) (drop_pending l c)) =
+    map noreply_of (filter (fun p => negb (p_get p =? c) && (match p_send p with Some s => s =? c | None => false end)) l)) by (apply IH; auto).
+  destruct (H1 p (or_introl eq_refl)) as [b Hb]. rewrite Hb.
+  destruct (p_get p =? c); simpl; auto.
+  destruct (b =? c); simpl; [rewrite IH'; reflexivity|].
+  rewrite (expired_some _ _ _ _ Hb), (H2 p (or_introl eq_refl)). auto.
+Qed.
+
+Section Ledger.
+Variable cf : cfg.
+Let T := reply_timeout cf.
+
+Record Inv (st : state) (tr : trace) : Prop := mkInv {
+  inv_parties : forall p, In p (st_pend st) -> exists b, p_send p = Some b /\ connected st (p_get p) = true /\ connected st b = true;
+  inv_age : forall p b, In p (st_pend st) -> p_send p = Some b ->
+            p_added p <= st_now st /\ age T tr (p_get p) b (p_serial p) = Some (st_now st - p_added p);
+  inv_slot : forall a b s t, age T tr a b s = Some t ->
+             exists p, In p (st_pend st) /\ p_get p = a /\ p_send p = Some b /\ p_serial p = s;
+  inv_nodup : NoDup (map pkey (st_pend st));
+  inv_fresh : forall p, In p (st_pend st) -> timed_out T (st_now st - p_added p) = false }.
+
+Lemma Inv_init : Inv init [].
+Proof. constructor; simpl; try tauto; try discriminate. constructor. Qed.
+
+(* steps that leave table, clock and ledger alone *)
+Lemma Inv_same st tr st' e o :
+  Inv st tr -> st_pend st' = st_pend st -> st_now st' = st_now st ->
+  (forall x, connected st x = true -> connected st' x = true) ->
+  (forall a b s, age T ((e, o) :: tr) a b s = age T tr a b s) -> Inv st' ((e, o) :: tr).
+Proof.
+  intros [I1 I2 I3 I4 I5] Hp Hn Hc Ha. constructor; rewrite ?Hp, ?Hn; auto.
+  - intros p Hin. destruct (I1 p Hin) as (b & ? & ? & ?). exists b. auto.
+  - intros p b Hin Hs. rewrite Ha. auto.
+  - intros a b s t. rewrite Ha. apply I3.
+Qed.
+
+Lemma Inv_send st tr c m st' o :
+  Inv st tr -> names_ok st -> connected st c = true -> plain_msg m = true ->
+  dispatch cf st c m = (st', o) -> Inv st' ((ESend c m, o) :: tr).
+Proof.
+  intros I Hn Hc Hpl D. pose proof (dispatch_frame _ _ _ _ _ _ D) as (Fc & _ & _ & Fn).
+  assert (Hconn : forall x, connected st' x = connected st x) by (intros x; unfold connected; rewrite Fc; auto).
+  destruct (send_cases _ _ _ _ _ _ Hpl D) as [Hp Hf | r Ho Hp Hnc Hno | r Rs Ho Hcall Hnr Hrs Hp Hno Hcnt | r l1 p l2 Ho Hnc Hrs Hpe Hm Hp].
+  - (* refused *)
+    apply (Inv_same st tr st'); auto; [intros x; rewrite Hconn; auto|].
+    intros a b s. simpl. rewrite !Hf, !andb_false_r. reflexivity.
+  - (* passed on, table untouched *)
+    assert (Hop : forall a b s, opens a b s (ESend c m) o = false).
+    { intros a b s. simpl. destruct Hnc as [E|E]; rewrite E; simpl; rewrite ?andb_false_r; auto. }
+    assert (Han : forall q b, In q (st_pend st) -> p_send q = Some b -> answers (p_get q) b (p_serial q) (ESend c m) o = false).
+    { intros q b Hq Hs. subst o. unfold answers. rewrite fwd_to_single.
+      destruct ((c =? b) && (m_rserial m =? p_serial q) && negb (p_serial q =? 0) && (r =? p_get q)) eqn:E; auto. exfalso.
+      rewrite !andb_true_iff, !N.eqb_eq, negb_true_iff, N.eqb_neq in E. destruct E as [[[E1 E2] E3] E4]. subst.
+      destruct Hno as [Z|Hno]; [congruence|].
+      assert (pend_match (p_get q) b (m_rserial m) q = true) by (apply pend_match_iff; auto). rewrite Hno in H; auto; discriminate. }
+    destruct I as [I1 I2 I3 I4 I5]. constructor; rewrite ?Hp, ?Fn; auto.
+    + intros q Hq. destruct (I1 q Hq) as (b & ? & ? & ?). exists b. rewrite !Hconn. auto.
+    + intros q b Hq Hs. destruct (I2 q b Hq Hs) as [L A]. split; auto.
+      change (age T ((ESend c m, o) :: tr) (p_get q) b (p_serial q)) with
+        (if opens (p_get q) b (p_serial q) (ESend c m) o then Some 0 else if answers (p_get q) b (p_serial q) (ESend c m) o then None else age T tr (p_get q) b (p_serial q)).
+      rewrite Hop, Han; auto.
+    + intros a b s t.
+      change (age T ((ESend c m, o) :: tr) a b s) with
+        (if opens a b s (ESend c m) o then Some 0 else if answers a b s (ESend c m) o then None else age T tr a b s).
+      rewrite Hop. destruct (answers a b s (ESend c m) o); [discriminate|]. apply I3.
+  - (* call opens a slot *)
+    assert (Han : forall a b s, answers a b s (ESend c m) o = false).
+    { intros a b s. simpl. rewrite Hrs. destruct (s =? 0) eqn:Z; [rewrite andb_false_r; auto|].
+      rewrite (N.eqb_sym 0 s), Z. rewrite !andb_false_r. auto. }
+    assert (Hop : forall a b s, opens a b s (ESend c m) o = (c =? a) && (m_serial m =? s) && (r =? b)).
+    { intros a b s. subst o. unfold opens. rewrite fwd_to_single, Hcall, Hnr. simpl. rewrite !andb_true_r. reflexivity. }
+    assert (Hage : forall a b s, age T ((ESend c m, o) :: tr) a b s = if (c =? a) && (m_serial m =? s) && (r =? b) then Some 0 else age T tr a b s).
+    { intros a b s.
+      change (age T ((ESend c m, o) :: tr) a b s) with
+        (if opens a b s (ESend c m) o then Some 0 else if answers a b s (ESend c m) o then None else age T tr a b s).
+      rewrite Hop, Han. reflexivity. }
+    destruct I as [I1 I2 I3 I4 I5]. constructor; rewrite ?Hp, ?Fn.
+    + intros q [<-|Hq]; simpl.
+      * exists r. rewrite !Hconn. split; auto. split; auto. eapply resolve_connected; eauto.
+      * destruct (I1 q Hq) as (b & ? & ? & ?). exists b. rewrite !Hconn. auto.
+    + intros q b [<-|Hq]; cbn [p_get p_send p_serial p_added].
+      * intros E; inversion E; subst b. split; [lia|]. rewrite Hage, !N.eqb_refl. simpl. f_equal. lia.
+      * intros Hs. destruct (I2 q b Hq Hs) as [L A]. split; auto. rewrite Hage.
+        destruct ((c =? p_get q) && (m_serial m =? p_serial q) && (r =? b)) eqn:E; auto. exfalso.
+        rewrite !andb_true_iff, !N.eqb_eq in E. destruct E as [[E1 E2] E3]. subst.
+        assert (pend_match (p_get q) b (m_serial m) q = true) by (apply pend_match_iff; auto). rewrite Hno in H; auto; discriminate.
+    + intros a b s t. rewrite Hage. destruct ((c =? a) && (m_serial m =? s) && (r =? b)) eqn:E.
+      * intros _. rewrite !andb_true_iff, !N.eqb_eq in E. destruct E as [[E1 E2] E3]. subst.
+        eexists. split; [left; reflexivity|simpl; auto].
+      * intros A. destruct (I3 _ _ _ _ A) as (q & ? & ?). exists q. split; auto. right; auto.
+    + simpl. constructor; auto. intros Hin. apply in_map_iff in Hin. destruct Hin as (q & Hk & Hq).
+      assert (pend_match c r (m_serial m) q = true) by (apply pend_match_key; auto). rewrite Hno in H; auto; discriminate.
+    + intros q [<-|Hq]; simpl; auto. rewrite N.sub_diag. apply timed_out_0.
+  - (* reply consumes the slot *)
+    assert (Hop : forall a b s, opens a b s (ESend c m) o = false).
+    { intros a b s. simpl. rewrite Hnc. rewrite andb_false_r. auto. }
+    assert (Han : forall a b s, answers a b s (ESend c m) o = (c =? b) && (m_rserial m =? s) && negb (s =? 0) && (r =? a)).
+    { intros a b s. subst o. unfold answers. rewrite fwd_to_single. reflexivity. }
+    assert (Hage : forall a b s, age T ((ESend c m, o) :: tr) a b s =
+                                 if (c =? b) && (m_rserial m =? s) && negb (s =? 0) && (r =? a) then None else age T tr a b s).
+    { intros a b s.
+      change (age T ((ESend c m, o) :: tr) a b s) with
+        (if opens a b s (ESend c m) o then Some 0 else if answers a b s (ESend c m) o then None else age T tr a b s).
+      rewrite Hop, Han. reflexivity. }
+    apply pend_match_iff in Hm. destruct Hm as (M1 & M2 & M3).
+    destruct I as [I1 I2 I3 I4 I5]. rewrite Hpe in *.
+    assert (Hin : forall q, In q (l1 ++ l2) -> In q (l1 ++ p :: l2)).
+    { intros q Hq. apply in_app_iff in Hq. apply in_app_iff. destruct Hq; auto. right; right; auto. }
+    constructor; rewrite ?Hp, ?Fn.
+    + intros q Hq. destruct (I1 q (Hin q Hq)) as (b & ? & ? & ?). exists b. rewrite !Hconn. auto.
+    + intros q b Hq Hs. destruct (I2 q b (Hin q Hq) Hs) as [L A]. split; auto. rewrite Hage.
+      destruct ((c =? b) && (m_rserial m =? p_serial q) && negb (p_serial q =? 0) && (r =? p_get q)) eqn:E; auto. exfalso.
+      rewrite !andb_true_iff, !N.eqb_eq in E. destruct E as [[[E1 E2] _] E4]. subst b.
+      apply (NoDup_other _ _ _ _ I4 Hq). unfold pkey. congruence.
+    + intros a b s t. rewrite Hage.
+      destruct ((c =? b) && (m_rserial m =? s) && negb (s =? 0) && (r =? a)) eqn:E; [discriminate|].
+      intros A. destruct (I3 _ _ _ _ A) as (q & Hq & Q1 & Q2 & Q3). exists q. split; auto.
+      apply in_app_iff in Hq. apply in_app_iff. destruct Hq as [|[->|]]; auto. exfalso.
+      rewrite Q1, Q3 in *. rewrite M3 in Q2. inversion Q2; subst.
+      rewrite !N.eqb_refl in E. simpl in E. rewrite andb_true_r in E. apply negb_false_iff, N.eqb_eq in E. congruence.
+    + rewrite map_app in *. simpl in I4. apply NoDup_remove_1 in I4. auto.
+    + intros q Hq. apply I5; auto.
+Qed.
+End Ledger.
+
+Lemma Inv_tick cf st tr d :
+  Inv cf st tr -> Inv cf (fst (tick cf st d)) ((ETick d, snd (tick cf st d)) :: tr).
+Proof.
+  intros [I1 I2 I3 I4 I5]. unfold tick. rewrite expire_pass_spec. cbn [fst snd].
+  set (now' := st_now st + d). set (o := map noreply_of (filter (expired cf now') (st_pend st))).
+  assert (Hage : forall a b s, age (reply_timeout cf) ((ETick d, o) :: tr) a b s =
+     match age (reply_timeout cf) tr a b s with
+     | Some t => if timed_out (reply_timeout cf) (t + d) then None else Some (t + d) | None => None end) by reflexivity.
+  constructor; cbn [st_pend st_now].
+  - intros p Hp. apply filter_In in Hp. destruct Hp as [Hp _]. apply I1 in Hp. exact Hp.
+  - intros p b Hp Hs. apply filter_In in Hp. destruct Hp as [Hp He]. destruct (I2 p b Hp Hs) as [L A].
+    rewrite (expired_some _ _ _ _ Hs) in He. apply negb_true_iff in He. unfold now' in *.
+    split; [lia|]. rewrite Hage, A. replace (st_now st - p_added p + d) with (st_now st + d - p_added p) by lia. rewrite He. reflexivity.
+  - intros a b s t. rewrite Hage. destruct (age (reply_timeout cf) tr a b s) as [t0|] eqn:A; [|discriminate].
+    destruct (timed_out (reply_timeout cf) (t0 + d)) eqn:E; [discriminate|]. intros _.
+    destruct (I3 _ _ _ _ A) as (p & Hp & Q1 & Q2 & Q3). exists p. split; auto. apply filter_In. split; auto.
+    rewrite (expired_some _ _ _ _ Q2). apply negb_true_iff. destruct (I2 p b Hp Q2) as [L A']. rewrite Q1, Q3, A in A'. inversion A'; subst t0.
+    unfold now'. replace (st_now st + d - p_added p) with (st_now st - p_added p + d) by lia. exact E.
+  - apply NoDup_map_filter. exact I4.
+  - intros p Hp. apply filter_In in Hp. destruct Hp as [Hp He]. destruct (I1 p Hp) as (b & Hs & _).
+    rewrite (expired_some _ _ _ _ Hs) in He. apply negb_true_iff in He. exact He.
+Qed.
+
+Lemma stays_iff c p b : p_send p = Some b -> (stays c p = true <-> p_get p <> c /\ b <> c).
+Proof.
+  intros Hs. unfold stays. rewrite Hs, andb_true_iff, !negb_true_iff, !N.eqb_neq. tauto.
+Qed.
+
+Lemma Inv_disconnect cf st tr c :
+  Inv cf st tr -> connected st c = true ->
+  Inv cf (fst (disconnect cf st c)) ((EDisconnect c, snd (disconnect cf st c)) :: tr).
+Proof.
+  intros [I1 I2 I3 I4 I5] Hc. unfold disconnect. rewrite expire_pass_spec. cbn [fst snd].
+  rewrite disconnect_filter; [|intros p Hp; destruct (I1 p Hp) as (b & ? & _); eauto|exact I5].
+  set (o := map noreply_of _).
+  assert (Hage : forall a b s, age (reply_timeout cf) ((EDisconnect c, o) :: tr) a b s =
+     if (c =? a) || (c =? b) then None else age (reply_timeout cf) tr a b s) by reflexivity.
+  constructor; cbn [st_pend st_now].
+  - intros p Hp. apply filter_In in Hp. destruct Hp as [Hp Hs]. destruct (I1 p Hp) as (b & Hb & C1 & C2).
+    apply (stays_iff _ _ _ Hb) in Hs. destruct Hs as [S1 S2]. exists b. split; auto.
+    unfold connected in *. cbn [st_conns]. rewrite !find_conn_filter. apply N.eqb_neq in S1, S2. rewrite S1, S2. auto.
+  - intros p b Hp Hb. apply filter_In in Hp. destruct Hp as [Hp Hs]. destruct (I2 p b Hp Hb) as [L A]. split; auto.
+    apply (stays_iff _ _ _ Hb) in Hs. destruct Hs as [S1 S2]. rewrite Hage.
+    apply not_eq_sym in S1, S2. apply N.eqb_neq in S1, S2. rewrite S1, S2. exact A.
+  - intros a b s t. rewrite Hage. destruct ((c =? a) || (c =? b)) eqn:E; [discriminate|]. intros A.
+    apply orb_false_iff in E. destruct E as [E1 E2]. apply N.eqb_neq in E1, E2.
+    destruct (I3 _ _ _ _ A) as (p & Hp & Q1 & Q2 & Q3). exists p. split; auto. apply filter_In. split; auto.
+    apply (stays_iff _ _ _ Q2). split; congruence.
+  - apply NoDup_map_filter. exact I4.
+  - intros p Hp. apply filter_In in Hp. destruct Hp as [Hp _]. auto.
+Qed.
+
+Lemma Inv_noop_disconnect cf st tr c o :
+  Inv cf st tr -> connected st c = false -> Inv cf st ((EDisconnect c, o) :: tr).
+Proof.
+  intros I Hc. pose proof I as [I1 I2 I3 I4 I5].
+  assert (Hage : forall a b s, age (reply_timeout cf) ((EDisconnect c, o) :: tr) a b s =
+     if (c =? a) || (c =? b) then None else age (reply_timeout cf) tr a b s) by reflexivity.
+  constructor; auto.
+  - intros p b Hp Hb. destruct (I2 p b Hp Hb) as [L A]. split; auto. rewrite Hage.
+    destruct (I1 p Hp) as (b' & Hb' & C1 & C2). rewrite Hb in Hb'. inversion Hb'; subst b'.
+    destruct (c =? p_get p) eqn:E1; [apply N.eqb_eq in E1; congruence|]. destruct (c =? b) eqn:E2; [apply N.eqb_eq in E2; congruence|]. exact A.
+  - intros a b s t. rewrite Hage. destruct ((c =? a) || (c =? b)); [discriminate|]. apply I3.
+Qed.
+
+Lemma age_other T e o tr a b s :
+  match e with ESend _ _ | EDisconnect _ | ETick _ => False | _ => True end ->
+  age T ((e, o) :: tr) a b s = age T tr a b s.
+Proof. destruct e; simpl; tauto. Qed.
+
+Lemma Inv_step cf st tr e :
+  Inv cf st tr -> names_ok st -> plain_event e = true ->
+  Inv cf (fst (step cf st e)) ((e, snd (step cf st e)) :: tr).
+Proof.
+  intros I Hn Hp. pose proof (step_conn cf st e) as Hc. revert Hc. unfold step.
+  destruct (negb (wf_event st e)) eqn:W; cbn [fst snd].
+  - (* ill-formed: nothing happens *)
+    intros _. destruct e as [fds|c m|c|d|c s n al rp dq|c s n]; try discriminate.
+    + apply (Inv_same cf st tr st); auto. intros a b s. simpl. rewrite !andb_false_r. reflexivity.
+    + apply Inv_noop_disconnect; auto; simpl in W; apply negb_true_iff in W; exact W.
+    + apply (Inv_same cf st tr st); auto; intros; apply age_other; exact Logic.I.
+    + apply (Inv_same cf st tr st); auto; intros; apply age_other; exact Logic.I.
+  - apply negb_false_iff in W. destruct e as [fds|c m|c|d|c s n al rp dq|c s n]; cbn [fst snd]; intros Hc.
+    + apply (Inv_same cf st tr); auto; intros; apply age_other; exact Logic.I.
+    + simpl in W. rewrite !andb_true_iff in W. destruct W as [[W _] _].
+      destruct (dispatch cf st c m) as [st' o] eqn:D. cbn [fst snd]. apply (Inv_send cf st); auto.
+    + apply Inv_disconnect; auto.
+    + apply Inv_tick; auto.
+    + destruct (acquire _ c al rp dq) as [q' code]. cbn [fst snd]. apply (Inv_same cf st tr); auto;
+        try solve [intros x Hx; simpl in Hc; rewrite Hc; auto]; try solve [intros; apply age_other; exact Logic.I].
+    + destruct (release (st_names st) c n) as [nm code]. cbn [fst snd]. apply (Inv_same cf st tr); auto;
+        try solve [intros x Hx; simpl in Hc; rewrite Hc; auto]; try solve [intros; apply age_other; exact Logic.I].
+Qed.
+
+(* runs *)
+Definition state_of (cf : cfg) (h : list event) : state := fst (run cf init h []).
+Definition trace_of (cf : cfg) (h : list event) : trace := snd (run cf init h []).
+
+Lemma run_app cf h1 h2 st acc :
+  run cf st (h1 ++ h2) acc = run cf (fst (run cf st h1 acc)) h2 (snd (run cf st h1 acc)).
+Proof.
+  revert st acc. induction h1 as [|e h1 IH]; intros st acc; simpl; auto.
+  destruct (step cf st e) as [st' o]. apply IH.
+Qed.
+
+Lemma run_snoc cf h e :
+  run cf init (h ++ [e]) [] =
+  (fst (step cf (state_of cf h) e), (e, snd (step cf (state_of cf h) e)) :: trace_of cf h).
+Proof.
+  rewrite run_app. unfold state_of, trace_of. simpl. destruct (step cf (fst (run cf init h [])) e); reflexivity.
+Qed.
+
+Lemma plain_app h1 h2 : plain (h1 ++ h2) = plain h1 && plain h2.
+Proof. unfold plain. apply forallb_app. Qed.
+
+Theorem ledger_invariant cf h : plain h = true -> Inv cf (state_of cf h) (trace_of cf h) /\ names_ok (state_of cf h).
+Proof.
+  induction h as [|e h IH] using rev_ind; intros Hp.
+  - split; [apply Inv_init|]. intros n q o [].
+  - rewrite plain_app in Hp. apply andb_true_iff in Hp. destruct Hp as [Hp He]. simpl in He. rewrite andb_true_r in He.
+    destruct (IH Hp) as [I Hn]. unfold state_of, trace_of. rewrite run_snoc. cbn [fst snd]. split.
+    + apply Inv_step; auto.
+    + apply names_ok_step; auto.
+Qed.
+
+Lemma names_ok_all cf h : names_ok (state_of cf h).
+Proof.
+  induction h as [|e h IH] using rev_ind.
+  - intros n q o [].
+  - unfold state_of. rewrite run_snoc. cbn [fst]. apply names_ok_step; auto.
+Qed.
+
+(* ------------------------------------------------------------------ Part 4: trace-level theorems *)
+Lemma trace_events cf h : map fst (trace_of cf h) = rev h.
+Proof.
+  induction h as [|e h IH] using rev_ind; auto.
+  unfold trace_of. rewrite run_snoc. cbn [snd map fst]. fold (trace_of cf h). rewrite IH, rev_app_distr. reflexivity.
+Qed.
+
+Lemma trace_cons_inv cf h x rest :
+  trace_of cf h = x :: rest ->
+  exists h' e, h = h' ++ [e] /\ rest = trace_of cf h' /\ x = (e, snd (step cf (state_of cf h') e)).
+Proof.
+  destruct h as [|e0 h0 _] using rev_ind; [discriminate|].
+  unfold trace_of. rewrite run_snoc. cbn [snd]. intros H. inversion H. exists h0, e0. auto.
+Qed.
+
+(* the ledger is the table (plain histories) *)
+Theorem ledger_is_table cf h a b s :
+  plain h = true ->
+  (is_open (reply_timeout cf) (trace_of cf h) a b s = true <->
+   exists p, In p (st_pend (state_of cf h)) /\ p_get p = a /\ p_send p = Some b /\ p_serial p = s).
+Proof.
+  intros Hp. destruct (ledger_invariant cf h Hp) as [[I1 I2 I3 I4 I5] _]. unfold is_open. split.
+  - destruct (age (reply_timeout cf) (trace_of cf h) a b s) eqn:A; [|discriminate]. intros _. eapply I3; eauto.
+  - intros (p & Hin & <- & Hs & <-). destruct (I2 p b Hin Hs) as [_ A]. rewrite A. reflexivity.
+Qed.
+
+Lemma step_send cf st c m : wf_event st (ESend c m) = true -> step cf st (ESend c m) = dispatch cf st c m.
+Proof. intros W. unfold step. rewrite W. reflexivity. Qed.
+
+Lemma step_illformed cf st e : wf_event st e = false -> step cf st e = (st, []).
+Proof. intros W. unfold step. rewrite W. reflexivity. Qed.
+
+(* C09: only the addressee of a still-open call gets a reply through *)
+Theorem only_addressee cf h c m a :
+  restrictive cf = true -> plain h = true -> m_rserial m <> 0 ->
+  fwd_to (snd (step cf (state_of cf h) (ESend c m))) a = true ->
+  open_call (reply_timeout cf) (trace_of cf h) a c (m_rserial m) /\ resolve (state_of cf h) (m_dest m) = Some a.
+Proof.
+  intros Hr Hp Hs. destruct (wf_event (state_of cf h) (ESend c m)) eqn:W; [|rewrite step_illformed; auto; discriminate].
+  rewrite step_send; auto. destruct (dispatch cf (state_of cf h) c m) as [st' o] eqn:D. cbn [snd]. intros Hf.
+  destruct (requested_only_state _ _ _ _ _ _ _ Hr Hs D Hf) as (Rs & _ & l1 & p & l2 & E & Hm & _). split; auto.
+  destruct (ledger_invariant cf h Hp) as [[I1 I2 I3 I4 I5] _].
+  apply pend_match_iff in Hm. destruct Hm as (M1 & M2 & M3).
+  assert (Hin : In p (st_pend (state_of cf h))) by (rewrite E; apply in_app_iff; right; left; auto).
+  destruct (I2 p c Hin M3) as [_ A]. unfold open_call. rewrite <- M1, <- M2, A. discriminate.
+Qed.
+
+(* C09: any other reply is refused as access denied and changes nothing *)
+Theorem unrequested_denied cf h c m r :
+  restrictive cf = true -> plain h = true -> wf_event (state_of cf h) (ESend c m) = true -> m_rserial m <> 0 ->
+  resolve (state_of cf h) (m_dest m) = Some r -> age (reply_timeout cf) (trace_of cf h) r c (m_rserial m) = None ->
+  step cf (state_of cf h) (ESend c m) = (state_of cf h, [(c, OErr EAccessDenied (m_serial m))]).
+Proof.
+  intros Hr Hp W Hs Rs A. rewrite step_send; auto. apply unrequested_refused with (r := r); auto.
+  intros p Hin. destruct (pend_match r c (m_rserial m) p) eqn:M; auto. exfalso.
+  destruct (ledger_invariant cf h Hp) as [[I1 I2 I3 I4 I5] _].
+  apply pend_match_iff in M. destruct M as (M1 & M2 & M3). destruct (I2 p c Hin M3) as [_ A']. rewrite M1, M2 in A'. congruence.
+Qed.
+
+(* C09: at most one reply per call *)
+Lemma age_none_until_opened T tr2 tr1 a b s :
+  age T tr1 a b s = None -> opened_in tr2 a b s = false -> age T (tr2 ++ tr1) a b s = None.
+Proof.
+  intros H1. induction tr2 as [|[e o] tr2 IH]; simpl; auto. intros H. apply orb_false_iff in H. destruct H as [Ho Hr].
+  change (opens a b s (fst (e, o)) (snd (e, o))) with (opens a b s e o) in Ho. rewrite Ho.
+  destruct (answers a b s e o); auto. specialize (IH Hr).
+  destruct e; auto; rewrite IH; auto. destruct ((c =? a) || (c =? b)); auto.
+Qed.
+
+Theorem at_most_one cf h a b s e1 o1 e2 o2 tr1 tr2 :
+  restrictive cf = true -> plain h = true ->
+  trace_of cf h = (e2, o2) :: tr2 ++ (e1, o1) :: tr1 ->
+  answers a b s e1 o1 = true -> answers a b s e2 o2 = true -> opened_in tr2 a b s = true.
+Proof.
+  intros Hr Hp Ht A1 A2.
+  destruct (trace_cons_inv _ _ _ _ Ht) as (h' & e & -> & Hrest & Hx). inversion Hx; subst e o2. clear Hx.
+  rewrite plain_app in Hp. apply andb_true_iff in Hp. destruct Hp as [Hp' He2].
+  (* e1 is a plain event of h', so it cannot open the call it answers *)
+  assert (Hop1 : opens a b s e1 o1 = false).
+  { assert (Hin : In e1 (rev h')) by (rewrite <- trace_events with (cf := cf), <- Hrest, map_app; apply in_app_iff; right; left; auto).
+    apply in_rev in Hin. unfold plain in Hp'. rewrite forallb_forall in Hp'. specialize (Hp' _ Hin).
+    destruct e1 as [|c1 m1| | | |]; try discriminate. simpl in A1, Hp' |- *.
+    rewrite !andb_true_iff, !N.eqb_eq, negb_true_iff, N.eqb_neq in A1. destruct A1 as [[[_ R] Z] _].
+    unfold plain_msg in Hp'. apply andb_true_iff in Hp'. destruct Hp' as [_ Hc].
+    destruct (is_call m1); [|rewrite andb_false_r; auto]. simpl in Hc. apply N.eqb_eq in Hc. congruence. }
+  destruct (opened_in tr2 a b s) eqn:O; auto. exfalso.
+  destruct e2 as [|c2 m2| | | |]; try discriminate. simpl in A2.
+  rewrite !andb_true_iff, !N.eqb_eq, negb_true_iff, N.eqb_neq in A2. destruct A2 as [[[C2 R2] Z2] F2]. subst c2 s.
+  destruct (only_addressee cf h' b m2 a Hr Hp' Z2 F2) as [Hopen _].
+  apply Hopen. rewrite <- Hrest. apply age_none_until_opened; auto.
+  change (age (reply_timeout cf) ((e1, o1) :: tr1) a b (m_rserial m2)) with
+    (if opens a b (m_rserial m2) e1 o1 then Some 0 else if answers a b (m_rserial m2) e1 o1 then None
+     else match e1 with
+          | EDisconnect c => if (c =? a) || (c =? b) then None else age (reply_timeout cf) tr1 a b (m_rserial m2)
+          | ETick d => match age (reply_timeout cf) tr1 a b (m_rserial m2) with
+                       | Some t => if timed_out (reply_timeout cf) (t + d) then None else Some (t + d) | None => None end
+          | _ => age (reply_timeout cf) tr1 a b (m_rserial m2) end).
+  rewrite Hop1, A1. reflexivity.
+Qed.
+
+(* C09: the per-receiver limit *)
+Theorem limit_holds cf h a : count_get a (st_pend (state_of cf h)) <= max_replies cf.
+Proof.
+  revert a. induction h as [|e h IH] using rev_ind; intros a.
+  - unfold state_of, count_get. simpl. lia.
+  - unfold state_of. rewrite run_snoc. cbn [fst]. apply limit_step. exact IH.
+Qed.
+
+Theorem limit_refuses cf st c m r :
+  wf_event st (ESend c m) = true -> is_call m = true -> m_noreply m = false -> m_rserial m = 0 ->
+  resolve st (m_dest m) = Some r -> max_replies cf <= count_get c (st_pend st) ->
+  (forall p, In p (st_pend st) -> pend_match c r (m_serial m) p = false) ->
+  step cf st (ESend c m) = (st, [(c, OErr ELimitsExceeded (m_serial m))]).
+Proof.
+  intros W Hc Hn Hr Rs Hl Hno. rewrite step_send; auto. unfold dispatch. rewrite Rs. unfold check_security_policy.
+  assert (Hcs : forall rq, can_send cf m rq = true) by (intros rq; unfold can_send; rewrite Hr; destruct (restrictive cf); auto).
+  assert (Hcr : forall rq, can_receive cf m rq = true) by (intros rq; unfold can_receive; rewrite Hr; destruct (restrictive cf); auto).
+  rewrite Hr. cbn [N.eqb]. rewrite Hcs, Hcr. cbn [negb].
+  unfold is_call in Hc. destruct (m_type m); try discriminate.
+  unfold expect_reply. rewrite Hn.
+  destruct (expect_scan (st_pend st) c r (m_serial m) 0) as [k|] eqn:E.
+  - apply expect_scan_some in E. fold (count_get c (st_pend st)) in E.
+    assert (L : (max_replies cf <=? k) = true) by (apply N.leb_le; lia). rewrite L. rewrite set_pend_same. reflexivity.
+  - apply expect_scan_none in E. destruct E as (p & Hp & M). rewrite Hno in M; auto. discriminate.
+Qed.
+
+(* C09: NoReply exactly once *)
+Lemma count_key l p (f : pend -> bool) :
+  NoDup (map pkey l) -> In p l -> (forall q, In q l -> (f q = true <-> pkey q = pkey p)) -> length (filter f l) = 1%nat.
+Proof.
+  induction l as [|x l IH]; simpl; [tauto|]. intros Hnd Hin Hf. inversion Hnd as [|? ? Hx Hnd']; subst.
+  destruct (f x) eqn:Fx.
+  - assert (Hk : pkey x = pkey p) by (apply Hf; auto).
+    assert (Hnone : filter f l = []).
+    { destruct (filter f l) as [|q r] eqn:E; auto. exfalso.
+      assert (Hq : In q (filter f l)) by (rewrite E; left; auto). apply filter_In in Hq. destruct Hq as [Hq Fq].
+      apply Hx. rewrite Hk. assert (pkey q = pkey p) by (apply Hf; auto). rewrite <- H. apply in_map. auto. }
+    rewrite Hnone. reflexivity.
+  - destruct Hin as [->|Hin].
+    + assert (f p = true) by (apply Hf; auto). congruence.
+    + apply IH; auto.
+Qed.
+
+Lemma filter_map_len {A B} (h : B -> bool) (f : A -> B) l : length (filter h (map f l)) = length (filter (fun x => h (f x)) l).
+Proof. induction l as [|x l IH]; simpl; auto. destruct (h (f x)); simpl; auto. Qed.
+
+Lemma filter_filter_len {A} (h g : A -> bool) l : length (filter h (filter g l)) = length (filter (fun x => g x && h x) l).
+Proof. induction l as [|x l IH]; simpl; auto. destruct (g x); simpl; auto. destruct (h x); simpl; auto. Qed.
+
+Lemma filter_nonempty {A} (f : A -> bool) l : (0 < length (filter f l))%nat -> exists x, In x l /\ f x = true.
+Proof.
+  destruct (filter f l) as [|x r] eqn:E; simpl; [lia|]. intros _. exists x. apply filter_In. rewrite E. left; auto.
+Qed.
+
+Definition leaves_with (c : N) (p : pend) : bool :=
+  negb (p_get p =? c) && (match p_send p with Some s => s =? c | None => false end).
+
+Lemma disconnect_output cf h c :
+  plain h = true -> connected (state_of cf h) c = true ->
+  snd (step cf (state_of cf h) (EDisconnect c)) = map noreply_of (filter (leaves_with c) (st_pend (state_of cf h))).
+Proof.
+  intros Hp Hc. destruct (ledger_invariant cf h Hp) as [[I1 I2 I3 I4 I5] _].
+  unfold step. cbn [wf_event]. rewrite Hc. cbn [negb]. unfold disconnect. rewrite expire_pass_spec. cbn [snd].
+  apply disconnect_out; auto. intros p Hin. destruct (I1 p Hin) as (b & ? & _). eauto.
+Qed.
+
+Lemma tick_output cf st d : snd (step cf st (ETick d)) = map noreply_of (filter (expired cf (st_now st + d)) (st_pend st)).
+Proof. unfold step. cbn [wf_event negb]. unfold tick. rewrite expire_pass_spec. reflexivity. Qed.
+
+Theorem noreply_once_on_disconnect cf h a b s t :
+  plain h = true -> age (reply_timeout cf) (trace_of cf h) a b s = Some t -> a <> b ->
+  count_noreply (snd (step cf (state_of cf h) (EDisconnect b))) a s = 1%nat.
+Proof.
+  intros Hp A Hab. destruct (ledger_invariant cf h Hp) as [[I1 I2 I3 I4 I5] _].
+  destruct (I3 _ _ _ _ A) as (p & Hin & P1 & P2 & P3). destruct (I1 p Hin) as (b' & Hb' & _ & Cb). rewrite P2 in Hb'. inversion Hb'; subst b'.
+  rewrite disconnect_output; auto. unfold count_noreply. rewrite filter_map_len, filter_filter_len.
+  apply count_key with (p := p); auto. intros q Hq. unfold leaves_with, nr_is, noreply_of, pkey. cbn [fst snd].
+  rewrite P1, P2, P3. destruct (I1 q Hq) as (bq & Hbq & _). rewrite Hbq.
+  rewrite !andb_true_iff, negb_true_iff, !N.eqb_eq, N.eqb_neq. split.
+  - intros [[_ ->] [-> ->]]. reflexivity.
+  - intros E. inversion E; subst. repeat split; auto; congruence.
+Qed.
+
+Theorem noreply_once_on_timeout cf h a b s t d :
+  plain h = true -> age (reply_timeout cf) (trace_of cf h) a b s = Some t -> timed_out (reply_timeout cf) (t + d) = true ->
+  (forall b', b' <> b -> age (reply_timeout cf) (trace_of cf h) a b' s = None) ->
+  count_noreply (snd (step cf (state_of cf h) (ETick d))) a s = 1%nat.
+Proof.
+  intros Hp A Hto Huniq. destruct (ledger_invariant cf h Hp) as [[I1 I2 I3 I4 I5] _].
+  destruct (I3 _ _ _ _ A) as (p & Hin & P1 & P2 & P3).
+  rewrite tick_output. unfold count_noreply. rewrite filter_map_len, filter_filter_len.
+  apply count_key with (p := p); auto. intros q Hq. unfold nr_is, noreply_of, pkey. cbn [fst snd].
+  rewrite P1, P2, P3. destruct (I1 q Hq) as (bq & Hbq & _). destruct (I2 q bq Hq Hbq) as [Lq Aq].
+  rewrite (expired_some _ _ _ _ Hbq), Hbq. rewrite !andb_true_iff, !N.eqb_eq. split.
+  - intros [_ [G S]]. rewrite G, S in Aq. destruct (N.eq_dec bq b) as [->|Hne]; [congruence|].
+    rewrite (Huniq bq Hne) in Aq. discriminate.
+  - intros E. injection E as E1 E2 E3. split; auto. rewrite E1, E2, E3, A in Aq. inversion Aq; subst t.
+    replace (st_now (state_of cf h) + d - p_added q) with (st_now (state_of cf h) - p_added q + d) by lia. exact Hto.
+Qed.
+
+Lemma csp_error_kinds cf now pl c r m pl' e :
+  check_security_policy cf now pl c r m = (pl', Some e) -> e = EAccessDenied \/ e = ELimitsExceeded.
+Proof.
+  unfold check_security_policy.
+  assert (G : forall pl1 rq,
+     (if negb (can_send cf m rq) then (pl1, Some EAccessDenied)
+      else if negb (can_receive cf m rq) then (pl1, Some EAccessDenied)
+      else match m_type m with TCall => expect_reply cf now pl1 c r m | _ => (pl1, None) end) = (pl', Some e) ->
+     e = EAccessDenied \/ e = ELimitsExceeded).
+  { intros pl1 rq. destruct (negb (can_send cf m rq)); [intros H; inversion H; auto|].
+    destruct (negb (can_receive cf m rq)); [intros H; inversion H; auto|].
+    destruct (m_type m); try discriminate. intros C.
+    destruct (expect_reply_cases _ _ _ _ _ _ _ _ C) as [(_ & _ & ?)|[(_ & _ & ? & _)|[(_ & _ & ? & _)|(_ & _ & ? & _)]]]; try discriminate;
+      inversion H; auto. }
+  destruct (m_rserial m =? 0); [apply G|]. destruct (check_reply pl c r (m_rserial m)); apply G.
+Qed.
+
+Lemma dispatch_no_noreply cf st c m a s : count_noreply (snd (dispatch cf st c m)) a s = 0%nat.
+Proof.
+  unfold dispatch. destruct (resolve st (m_dest m)) as [r|].
+  - destruct (check_security_policy cf (st_now st) (st_pend st) c r m) as [pl [e|]] eqn:C.
+    + destruct (csp_error_kinds _ _ _ _ _ _ _ _ C) as [->| ->]; unfold count_noreply, nr_is; simpl; destruct (c =? a); reflexivity.
+    + destruct ((0 <? m_nfds m) && negb (conn_fds st r)); unfold count_noreply, nr_is; simpl; [destruct (c =? a)|destruct (r =? a)]; reflexivity.
+  - unfold count_noreply, nr_is. simpl. destruct (m_noauto m); destruct (c =? a); reflexivity.
+Qed.
+
+Theorem noreply_only_for_open_calls cf h e a s :
+  plain h = true -> (0 < count_noreply (snd (step cf (state_of cf h) e)) a s)%nat ->
+  exists b, is_open (reply_timeout cf) (trace_of cf h) a b s = true /\
+            is_open (reply_timeout cf) (trace_of cf (h ++ [e])) a b s = false /\
+            (e = EDisconnect b \/ exists d, e = ETick d).
+Proof.
+  intros Hp Hc. destruct (ledger_invariant cf h Hp) as [[I1 I2 I3 I4 I5] _].
+  destruct (wf_event (state_of cf h) e) eqn:W; [|rewrite step_illformed in Hc; auto; unfold count_noreply in Hc; simpl in Hc; lia].
+  unfold trace_of at 2. rewrite run_snoc. cbn [snd]. fold (trace_of cf h).
+  destruct e as [fds|c m|c|d|c sr n al rp dq|c sr n].
+  - unfold step in Hc. rewrite W in Hc. unfold count_noreply in Hc. simpl in Hc. lia.
+  - rewrite step_send in Hc; auto. rewrite dispatch_no_noreply in Hc. lia.
+  - simpl in W. rewrite disconnect_output in *; auto.
+    unfold count_noreply in Hc. rewrite filter_map_len, filter_filter_len in Hc. apply filter_nonempty in Hc.
+    destruct Hc as (q & Hq & Hf). unfold leaves_with, nr_is, noreply_of in Hf. cbn [fst snd] in Hf.
+    destruct (I1 q Hq) as (b & Hb & _). rewrite Hb in Hf. rewrite !andb_true_iff, !N.eqb_eq in Hf. destruct Hf as [[_ ->] [<- <-]].
+    destruct (I2 q c Hq Hb) as [_ A]. exists c. unfold is_open. rewrite A. split; auto. split; auto.
+    change (age (reply_timeout cf) ((EDisconnect c, map noreply_of (filter (leaves_with c) (st_pend (state_of cf h)))) :: trace_of cf h) (p_get q) c (p_serial q))
+      with (if (c =? p_get q) || (c =? c) then None else age (reply_timeout cf) (trace_of cf h) (p_get q) c (p_serial q)).
+    rewrite N.eqb_refl, orb_true_r. reflexivity.
+  - rewrite tick_output in *.
+    unfold count_noreply in Hc. rewrite filter_map_len, filter_filter_len in Hc. apply filter_nonempty in Hc.
+    destruct Hc as (q & Hq & Hf). unfold nr_is, noreply_of in Hf. cbn [fst snd] in Hf.
+    destruct (I1 q Hq) as (b & Hb & _). rewrite (expired_some _ _ _ _ Hb) in Hf.
+    rewrite !andb_true_iff, !N.eqb_eq in Hf. destruct Hf as [He [<- <-]].
+    destruct (I2 q b Hq Hb) as [L A]. exists b. unfold is_open. rewrite A. split; auto. split; [|right; eauto].
+    set (o := map noreply_of _).
+    change (age (reply_timeout cf) ((ETick d, o) :: trace_of cf h) (p_get q) b (p_serial q))
+      with (match age (reply_timeout cf) (trace_of cf h) (p_get q) b (p_serial q) with
+            | Some t => if timed_out (reply_timeout cf) (t + d) then None else Some (t + d) | None => None end).
+    rewrite A. replace (st_now (state_of cf h) - p_added q + d) with (st_now (state_of cf h) + d - p_added q) by lia.
+    rewrite He. reflexivity.
+  - unfold step in Hc. rewrite W in Hc. cbn [negb] in Hc. destruct (acquire _ c al rp dq) in Hc. unfold count_noreply, nr_is in Hc. simpl in Hc. destruct (c =? a); simpl in Hc; lia.
+  - unfold step in Hc. rewrite W in Hc. cbn [negb] in Hc. destruct (release _ c n) in Hc. unfold count_noreply, nr_is in Hc. simpl in Hc. destruct (c =? a); simpl in Hc; lia.
+Qed.
+
+(* C09: the NO_REPLY_EXPECTED flag, on the ledger (holds by definition of the ledger) and on the table (noreply_opens_nothing) *)
+Theorem noreply_flag_ledger T tr c m o a b s :
+  m_noreply m = true -> is_open T ((ESend c m, o) :: tr) a b s = true -> is_open T tr a b s = true.
+Proof.
+  intros Hn. unfold is_open.
+  change (age T ((ESend c m, o) :: tr) a b s) with
+    (if opens a b s (ESend c m) o then Some 0 else if answers a b s (ESend c m) o then None else age T tr a b s).
+  assert (Ho : opens a b s (ESend c m) o = false) by (simpl; rewrite Hn; simpl; rewrite !andb_false_r; auto).
+  rewrite Ho. destruct (answers a b s (ESend c m) o); auto. discriminate.
+Qed.
+
+(* ------------------------------------------------------------------ C05 *)
+Theorem send_exactly_once cf st c m :
+  wf_event st (ESend c m) = true ->
+  (exists r, resolve st (m_dest m) = Some r /\ snd (step cf st (ESend c m)) = [(r, OFwd c m)]) \/
+  (exists e, snd (step cf st (ESend c m)) = [(c, OErr e (m_serial m))]).
+Proof.
+  intros W. rewrite step_send; auto. destruct (dispatch cf st c m) as [st' o] eqn:D. apply dispatch_shape in D. exact D.
+Qed.
+
+Theorem no_third_party cf st c m x f m' :
+  In (x, OFwd f m') (snd (step cf st (ESend c m))) -> resolve st (m_dest m) = Some x /\ f = c /\ m' = m.
+Proof.
+  destruct (wf_event st (ESend c m)) eqn:W; [|rewrite step_illformed; auto; intros []].
+  destruct (send_exactly_once cf st c m W) as [(r & Rs & ->)|(e & ->)]; intros [H|[]]; inversion H; subst; auto.
+Qed.
+
+Theorem no_owner_error cf st c m :
+  wf_event st (ESend c m) = true -> resolve st (m_dest m) = None ->
+  step cf st (ESend c m) = (st, [(c, OErr (if m_noauto m then ENameHasNoOwner else EServiceUnknown) (m_serial m))]).
+Proof. intros W R. rewrite step_send; auto. unfold dispatch. rewrite R. reflexivity. Qed.
+
+Theorem permissive_delivers cf st c m r :
+  wf_event st (ESend c m) = true -> restrictive cf = false -> resolve st (m_dest m) = Some r ->
+  (0 <? m_nfds m) && negb (conn_fds st r) = false ->
+  (is_call m = false \/ m_noreply m = true \/
+   ((forall p, In p (st_pend st) -> pend_match c r (m_serial m) p = false) /\ count_get c (st_pend st) < max_replies cf)) ->
+  snd (step cf st (ESend c m)) = [(r, OFwd c m)].
+Proof.
+  intros W Hr Rs Hf Hc. rewrite step_send; auto. unfold dispatch. rewrite Rs.
+  destruct (check_security_policy cf (st_now st) (st_pend st) c r m) as [pl res] eqn:C.
+  assert (res = None); [|subst res; rewrite Hf; reflexivity].
+  revert C. unfold check_security_policy.
+  assert (G : forall pl1 rq, (forall p, In p pl1 -> In p (st_pend st)) -> count_get c pl1 <= count_get c (st_pend st) ->
+     (if negb (can_send cf m rq) then (pl1, Some EAccessDenied)
+      else if negb (can_receive cf m rq) then (pl1, Some EAccessDenied)
+      else match m_type m with TCall => expect_reply cf (st_now st) pl1 c r m | _ => (pl1, None) end) = (pl, res) -> res = None).
+  { intros pl1 rq Hsub Hcnt. unfold can_send, can_receive. rewrite Hr. cbn [negb].
+    destruct (m_type m) eqn:Ty; try solve [intros H; inversion H; auto].
+    intros C. destruct (expect_reply_cases _ _ _ _ _ _ _ _ C) as [(_ & _ & ?)|[(Hn & _ & _ & q & Hq & Mq)|[(Hn & _ & _ & Hl & _)|(_ & _ & ? & _)]]]; auto; exfalso.
+    - destruct Hc as [Hc|[Hc|[Hno _]]]; [unfold is_call in Hc; rewrite Ty in Hc; discriminate|congruence|].
+      rewrite Hno in Mq; auto; discriminate.
+    - destruct Hc as [Hc|[Hc|[_ Hlt]]]; [unfold is_call in Hc; rewrite Ty in Hc; discriminate|congruence|lia]. }
+  destruct (m_rserial m =? 0); [apply G; auto; lia|].
+  destruct (check_reply (st_pend st) c r (m_rserial m)) as [pl1|] eqn:R; [|apply G; auto; lia].
+  apply G; [apply (check_reply_incl _ _ _ _ _ R)|apply (check_reply_count _ _ _ _ _ c R)].
+Qed.
+
+Lemma step_nonsend_no_fwd cf st e x :
+  match e with ESend _ _ => False | _ => True end -> In x (snd (step cf st e)) -> match snd x with OFwd _ _ => False | _ => True end.
+Proof.
+  intros He. unfold step. destruct (negb (wf_event st e)); [intros []|].
+  destruct e as [fds|c m|c|d|c s n al rp dq|c s n]; try tauto.
+  - intros [].
+  - unfold disconnect. rewrite expire_pass_spec. cbn [snd]. intros H. apply in_map_iff in H. destruct H as (p & <- & _). exact I.
+  - unfold tick. rewrite expire_pass_spec. cbn [snd]. intros H. apply in_map_iff in H. destruct H as (p & <- & _). exact I.
+  - destruct (acquire _ c al rp dq). intros [<-|[]]. exact I.
+  - destruct (release (st_names st) c n). intros [<-|[]]. exact I.
+Qed.
+
+Lemma no_fwd_filter a b (o : out) :
+  (forall x, In x o -> match snd x with OFwd _ _ => False | _ => True end) ->
+  filter (from_conn a) (map snd (filter (fun x => fst x =? b) o)) = [].
+Proof.
+  induction o as [|x o IH]; simpl; auto. intros H. destruct (fst x =? b); simpl.
+  - specialize (H x (or_introl eq_refl)) as Hx. destruct (snd x); try tauto; simpl; apply IH; intros; apply H; auto.
+  - apply IH; intros; apply H; auto.
+Qed.
+
+(* per (sender, recipient) FIFO: what b reads from a is, in order, what a wrote and the bus passed on to b *)
+Theorem fifo cf h a b :
+  filter (from_conn a) (inbox (trace_of cf h) b) = map (OFwd a) (passed_on (trace_of cf h) a b).
+Proof.
+  induction h as [|e h IH] using rev_ind; auto.
+  unfold trace_of. rewrite run_snoc. cbn [snd]. fold (trace_of cf h).
+  set (st := state_of cf h). set (o := snd (step cf st e)).
+  assert (Hin : inbox ((e, o) :: trace_of cf h) b = inbox (trace_of cf h) b ++ map snd (filter (fun x => fst x =? b) o)) by reflexivity.
+  rewrite Hin, filter_app, IH.
+  destruct e as [fds|c m|c|d|c s n al rp dq|c s n];
+    try (rewrite no_fwd_filter; [rewrite app_nil_r; reflexivity|intros x; apply step_nonsend_no_fwd; exact I]).
+  assert (Hpo : passed_on ((ESend c m, o) :: trace_of cf h) a b = passed_on (trace_of cf h) a b ++ (if (c =? a) && fwd_to o b then [m] else [])) by reflexivity.
+  rewrite Hpo, map_app. f_equal.
+  destruct (wf_event st (ESend c m)) eqn:W.
+  - destruct (send_exactly_once cf st c m W) as [(r & _ & E)|(er & E)]; fold o in E; rewrite E.
+    + rewrite fwd_to_single. simpl. destruct (r =? b); simpl; [|rewrite andb_false_r; reflexivity].
+      rewrite andb_true_r. destruct (c =? a) eqn:Ca; auto. apply N.eqb_eq in Ca. subst. reflexivity.
+    + rewrite fwd_to_err, andb_false_r. simpl. destruct (c =? b); reflexivity.
+  - unfold o. rewrite step_illformed; auto. simpl. rewrite andb_false_r. reflexivity.
+Qed.
+
+(* ------------------------------------------------------------------ C05: at most one error per serial (plain histories) *)
+Definition gs (a s : N) (p : pend) : bool := (p_get p =? a) && (p_serial p =? s).
+Definition count_gs (a s : N) (pl : list pend) : nat := length (filter (gs a s) pl).
+Definition is_send_as (a s : N) (e : event) : bool :=
+  match e with ESend c m => (c =? a) && (m_serial m =? s) | _ => false end.
+
+Lemma errors_cons e o tr a s : errors_in ((e, o) :: tr) a s = (length (filter (err_is a s) o) + errors_in tr a s)%nat.
+Proof. unfold errors_in. simpl. rewrite filter_app, app_length. reflexivity. Qed.
+
+Lemma count_gs_drop a s l c : (count_gs a s (drop_pending l c) <= count_gs a s l)%nat.
+Proof.
+  unfold count_gs. induction l as [|p l IH]; cbn [drop_pending]; auto.
+  destruct (p_get p =? c).
+  - cbn [filter]. destruct (gs a s p); cbn [length]; lia.
+  - destruct (p_send p) as [x|]; [destruct (x =? c)|]; cbn [filter];
+      try change (gs a s {| p_get := p_get p; p_send := None; p_serial := p_serial p; p_added := 0 |}) with (gs a s p);
+      destruct (gs a s p); cbn [length]; lia.
+Qed.
+
+Lemma expire_partition a s (f : pend -> bool) l :
+  (length (filter (err_is a s) (map noreply_of (filter f l))) + count_gs a s (filter (fun p => negb (f p)) l) = count_gs a s l)%nat.
+Proof.
+  unfold count_gs. induction l as [|p l IH]; cbn [filter map]; auto.
+  destruct (f p); cbn [negb filter map].
+  - change (err_is a s (noreply_of p)) with (gs a s p). destruct (gs a s p); cbn [length]; lia.
+  - destruct (gs a s p); cbn [length]; lia.
+Qed.
+
+Lemma errors_step cf st e a s :
+  plain_event e = true ->
+  (length (filter (err_is a s) (snd (step cf st e))) + count_gs a s (st_pend (fst (step cf st e)))
+   <= count_gs a s (st_pend st) + (if is_send_as a s e then 1 else 0))%nat.
+Proof.
+  intros Hp. unfold step. destruct (negb (wf_event st e)); [simpl; lia|].
+  destruct e as [fds|c m|c|d|c sr n al rp dq|c sr n]; cbn [is_send_as].
+  - simpl. lia.
+  - destruct (dispatch cf st c m) as [st' o] eqn:D. cbn [fst snd].
+    destruct (send_cases _ _ _ _ _ _ Hp D) as [Hpe Hf | r Ho Hpe _ _ | r _ Ho _ _ _ Hpe _ _ | r l1 p l2 Ho _ _ Hps _ Hpe].
+    + rewrite Hpe. destruct (dispatch_shape _ _ _ _ _ _ D) as [(r & _ & ->)|(er & ->)].
+      * specialize (Hf r). rewrite fwd_to_single, N.eqb_refl in Hf. discriminate.
+      * simpl. unfold err_is. cbn [fst snd]. destruct ((c =? a) && (m_serial m =? s)); simpl; lia.
+    + rewrite Hpe, Ho. simpl. unfold err_is. cbn [fst snd]. rewrite andb_false_r. simpl. lia.
+    + rewrite Hpe, Ho. unfold count_gs. simpl. unfold err_is, gs at 1. cbn [fst snd p_get p_serial]. rewrite andb_false_r.
+      destruct ((c =? a) && (m_serial m =? s)); simpl; lia.
+    + rewrite Hpe, Hps, Ho. unfold count_gs. rewrite !filter_app, !app_length. simpl. unfold err_is. cbn [fst snd]. rewrite andb_false_r.
+      destruct (gs a s p); simpl; lia.
+  - unfold disconnect. rewrite expire_pass_spec. cbn [fst snd st_pend].
+    pose proof (expire_partition a s (expired cf (st_now st)) (drop_pending (st_pend st) c)).
+    pose proof (count_gs_drop a s (st_pend st) c). lia.
+  - unfold tick. rewrite expire_pass_spec. cbn [fst snd st_pend].
+    pose proof (expire_partition a s (expired cf (st_now st + d)) (st_pend st)). lia.
+  - destruct (acquire _ c al rp dq). simpl. unfold err_is. cbn [fst snd]. rewrite andb_false_r. simpl. lia.
+  - destruct (release (st_names st) c n). simpl. unfold err_is. cbn [fst snd]. rewrite andb_false_r. simpl. lia.
+Qed.
+
+Lemma sends_snoc h e a s : sends_with_serial (h ++ [e]) a s = (sends_with_serial h a s + (if is_send_as a s e then 1 else 0))%nat.
+Proof.
+  unfold sends_with_serial. rewrite filter_app, app_length. simpl. fold (is_send_as a s e). destruct (is_send_as a s e); reflexivity.
+Qed.
+
+Theorem errors_bounded cf h a s :
+  plain h = true ->
+  (errors_in (trace_of cf h) a s + count_gs a s (st_pend (state_of cf h)) <= sends_with_serial h a s)%nat.
+Proof.
+  induction h as [|e h IH] using rev_ind; intros Hp.
+  - simpl. unfold errors_in, count_gs. simpl. lia.
+  - rewrite plain_app in Hp. apply andb_true_iff in Hp. destruct Hp as [Hp He]. simpl in He. rewrite andb_true_r in He.
+    specialize (IH Hp). unfold trace_of, state_of. rewrite run_snoc. cbn [fst snd]. fold (trace_of cf h).
+    rewrite errors_cons, sends_snoc. pose proof (errors_step cf (state_of cf h) e a s He). lia.
+Qed.
+
+Theorem one_error_per_serial cf h a s :
+  plain h = true -> sends_with_serial h a s = 1%nat -> (errors_in (trace_of cf h) a s <= 1)%nat.
+Proof. intros Hp H1. pose proof (errors_bounded cf h a s Hp). lia. Qed.
